@@ -289,20 +289,62 @@ class Interp:
         if s.value is not None:
             self.assign(s.target, self.eval(s.value, fr), fr)
 
+    def _inplace(self, op, cur, val):
+        """x op= y on a MUTABLE container updates the object in place (list += iterable is list.extend, visible through every
+        alias of the list); returns (True, object) when handled that way"""
+        if isinstance(cur, list) or isinstance(cur, (SeqList, ArrList, AbsList)):
+            if isinstance(op, ast.Add):
+                if isinstance(cur, ArrList) and not isinstance(val, (ArrList, SeqList, AbsList)):
+                    for x in list(self.iterate(val)):
+                        cur.method(self, "append", [x], {})
+                else:
+                    self.call_native_method(cur, "extend", [val], {})
+                return True, cur
+            if isinstance(op, ast.Mult) and isinstance(cur, list) and isinstance(val, int):
+                if self.write_hook is not None:
+                    self.write_hook(self, cur, "imul", "list")
+                cur *= val
+                return True, cur
+            return False, None
+        if isinstance(cur, set) and isinstance(op, (ast.BitOr, ast.BitAnd, ast.Sub, ast.BitXor)) and isinstance(val, (set, frozenset)):
+            if self.write_hook is not None:
+                self.write_hook(self, cur, "update", "set")
+            if isinstance(op, ast.BitOr):
+                cur |= val
+            elif isinstance(op, ast.BitAnd):
+                cur &= val
+            elif isinstance(op, ast.Sub):
+                cur -= val
+            else:
+                cur ^= val
+            return True, cur
+        if isinstance(cur, dict) and isinstance(op, ast.BitOr) and isinstance(val, dict):
+            if self.write_hook is not None:
+                self.write_hook(self, cur, "update", "dict")
+            cur.update(val)
+            return True, cur
+        return False, None
+
     def st_AugAssign(self, s, fr):
         t = s.target
         if isinstance(t, ast.Name):
             cur = self.lookup(t.id, fr)
-            self.assign(t, self.binop(s.op, cur, self.eval(s.value, fr)), fr)
+            val = self.eval(s.value, fr)
+            done, obj = self._inplace(s.op, cur, val)
+            self.assign(t, obj if done else self.binop(s.op, cur, val), fr)
         elif isinstance(t, ast.Attribute):
             o = self.eval(t.value, fr)
             cur = self.getattr_(o, t.attr)
-            self.setattr_(o, t.attr, self.binop(s.op, cur, self.eval(s.value, fr)))
+            val = self.eval(s.value, fr)
+            done, obj = self._inplace(s.op, cur, val)
+            self.setattr_(o, t.attr, obj if done else self.binop(s.op, cur, val))
         elif isinstance(t, ast.Subscript):
             o = self.eval(t.value, fr)
             i = self.eval_index(t.slice, fr)
             cur = self.getitem(o, i)
-            self.setitem(o, i, self.binop(s.op, cur, self.eval(s.value, fr)))
+            val = self.eval(s.value, fr)
+            done, obj = self._inplace(s.op, cur, val)
+            self.setitem(o, i, obj if done else self.binop(s.op, cur, val))
         else:
             raise EngineError("augassign target")
 
